@@ -389,6 +389,11 @@ def safe_rounding(a, rounding):
     return a if a == Decimal("inf") or a == Decimal("nan") else a.quantize(rounding)
 '''
 
+REF_RATE_TO_APY = '''
+def rate_to_apy(rate):
+    return (1 + rate / AaveV3CoreLib.SECONDS_IN_A_YEAR) ** AaveV3CoreLib.SECONDS_IN_A_YEAR - 1
+'''
+
 REF_SAFE_DIV = '''
 def safe_div_zero(a, b):
     if b != 0:
